@@ -17,6 +17,7 @@ structure PipeInst where
   failure : Option String := none
   parseInput : Bool := true
   contextArgs : Option (List String) := none
+  groupsBad : Bool := false        -- `groups` is a truthy value that cannot be iterated (`groups: 5`)
   deriving Repr, DecidableEq, Inhabited
 
 /-- `step_cache.get_step(name)` (`Cache.get` then `moduleloader.get_module` → `importlib.import_module`)
@@ -84,8 +85,10 @@ def getPipelineSteps (prog : Program) (pipe g : String) : Except (String × Stri
     | none => .ok []
   | none => .ok []
 
-/-- The effective `(groups, success, failure)` of `Pipeline._run_pipeline`. -/
+/-- The effective `(groups, success, failure)` of `Pipeline._run_pipeline`. (`groupsBad`: `groups` is
+    truthy, so nothing is defaulted; there is no list of names then.) -/
 def effectiveGroups (pi : PipeInst) : List String × Option String × Option String :=
+  if pi.groupsBad then ([], pi.success, pi.failure) else
   let given := match pi.groups with | some (g :: gs) => some (g :: gs) | _ => none
   let truthyS (o : Option String) : Bool := match o with | some s => s != "" | none => false
   match given with
@@ -135,6 +138,7 @@ structure PypeArgs where
   skipParse : Bool
   raiseError : Bool
   groups : Option (List String)
+  groupsBad : Bool
   success : Option String
   failure : Option String
   deriving Repr, Inhabited
@@ -183,15 +187,31 @@ def getPypeArgs (s : St) : Except (String × String) PypeArgs :=
             .error ("pypyr.errors.ContextError", "~pypyr.steps.pype pype.out is only relevant if useParentContext = False.")
           else
             let raiseError := match dictGet? kvs (.str "raiseError") with | some v => v.truthy | none => true
-            let groups : Option (List String) := match dictGet? kvs (.str "groups") with
-              | some (.str g) => some [g]
-              | some v => strList? v
-              | none => none
-            let optS (k : String) : Option String := match dictGet? kvs (.str k) with
-              | some (.str t) => some t
-              | _ => none
-            .ok { name, args, out, useParent, pipeArg, skipParse, raiseError, groups,
-                  success := optS "success", failure := optS "failure" }
+            -- `groups = pype.get('groups'); if isinstance(groups, str): groups = [groups]`; whatever it is
+            -- goes to `Pipeline(groups=…)`: a mapping iterates its keys, a number cannot be iterated
+            let groupsR : Except (String × String) (Option (List String) × Bool) :=
+              match dictGet? kvs (.str "groups") with
+              | none | some .none => .ok (none, false)
+              | some (.str g) => .ok (some [g], false)
+              | some (.list xs) | some (.tuple xs) => match strList? (.list xs) with
+                | some gs => .ok (some gs, false)
+                | none => .error ("OutOfDomain", "group names must be strings")
+              | some (.dict gkvs) => match strList? (.list (gkvs.map (·.1))) with
+                | some gs => .ok (some gs, false)
+                | none => .error ("OutOfDomain", "group names must be strings")
+              | some (.int i) => .ok (none, i != 0)
+              | some (.bool b) => .ok (none, b)
+              | some (.flt n _) => .ok (none, n != 0)
+              | some _ => .error ("OutOfDomain", "pype groups outside the modelled shapes")
+            let optS (k : String) : Except (String × String) (Option String) := match dictGet? kvs (.str k) with
+              | some (.str t) => .ok (some t)
+              | none | some .none => .ok none
+              | some _ => .error ("OutOfDomain", "pype success/failure must be a string")
+            match groupsR, optS "success", optS "failure" with
+            | .error e, _, _ | _, .error e, _ | _, _, .error e => .error e
+            | .ok (groups, groupsBad), .ok success, .ok failure =>
+              .ok { name, args, out, useParent, pipeArg, skipParse, raiseError, groups, groupsBad,
+                    success, failure }
       | some _ => .error ("OutOfDomain", "pype name must be a string")
     | .ok _ => .error ("TypeError", "~pype must be a mapping")
 
@@ -215,7 +235,8 @@ def writeOut (out : Val) (parent : St) (child : St) : St × Res :=
         match Ctx.get? child.ctx ck with
         | none => raiseNew p "pypyr.errors.KeyNotInContextError" (ck ++ " not found in the pypyr context.")
         | some v =>
-          match fmtVal FMT_FUEL child.ctx v with
+          -- `child_context.get_formatted(ck)`: a KeyNotInContextError is re-raised with a longer text
+          match fmtAtKey child v with
           | .error x => raiseExc p x
           | .ok fv => ({ p with ctx := Ctx.set p.ctx pk fv }, .ok)
       | other => other) (parent, .ok)
@@ -259,6 +280,8 @@ def runSteps : Nat → Program → String → List StepDef → Body
 def runStepGroup : Nat → Program → String → String → Bool → Body
   | 0, _, _, _, _ => fun s => (s, .outOfFuel)
   | fuel + 1, prog, pipe, g, raiseStop => fun s =>
+    -- `assert step_group_name`
+    if g == "" then raiseNew s "AssertionError" "" else
     -- `steps = self.get_pipeline_steps(...)` stands before the `try`
     match getPipelineSteps prog pipe g with
     | .error (n, m) => raiseNew s n m
@@ -336,7 +359,21 @@ def runPipeline : Nat → Program → PipeInst → Body
           | (s2, .ok) => (s2, .err e h)
           | other => other                                 -- Stop
         | (s1, .ok) =>
-          match runGroups fuel prog pi.name groups success failure s1 with
+          let ran : St × Res :=
+            if pi.groupsBad then
+              -- `for step_group in groups` raises TypeError inside the `try` of `run_step_groups`
+              match raiseNew s1 "TypeError" "~object is not iterable" with
+              | (s1', .err e h) =>
+                let hasFailure := match failure with | some f => f != "" | none => false
+                if hasFailure then
+                  match runFailureGroup fuel prog pi.name failure s1' with
+                  | (s2, .stopGroup) => (s2, .ok)
+                  | (s2, .ok) => (s2, .err e h)
+                  | other => other
+                else (s1', .err e h)
+              | other => other
+            else runGroups fuel prog pi.name groups success failure s1
+          match ran with
           | (s2, .stopPipeline) => (s2, .ok)
           | other => other
         | other => other
@@ -351,7 +388,7 @@ def pypeBody : Nat → Program → Body
     | .error (n, m) => raiseNew s n m
     | .ok a =>
       let pi : PipeInst := { name := a.name, groups := a.groups, success := a.success, failure := a.failure,
-                             parseInput := !a.skipParse, contextArgs := a.pipeArg }
+                             parseInput := !a.skipParse, contextArgs := a.pipeArg, groupsBad := a.groupsBad }
       let r : St × Res :=
         if a.useParent then
           let s1 := match a.args with
